@@ -703,7 +703,18 @@ struct __gmp_binary_divides
   static void eval(mpz_ptr z, mpir_si l, mpz_srcptr w)
   {
     if (mpz_fits_si_p(w))
-      mpz_set_si(z, l / mpz_get_si(w));
+      {
+        mpir_si d = mpz_get_si(w);
+        /* the most negative l divided by -1 does not fit an mpir_si (and
+           traps on x86), so negate instead of dividing by -1 */
+        if (d == -1)
+          {
+            mpz_set_si(z, l);
+            mpz_neg(z, z);
+          }
+        else
+          mpz_set_si(z, l / d);
+      }
     else
       {
         /* if w is bigger than a long then the quotient must be zero, unless
@@ -847,7 +858,11 @@ struct __gmp_binary_modulus
   static void eval(mpz_ptr z, mpir_si l, mpz_srcptr w)
   {
     if (mpz_fits_si_p(w))
-      mpz_set_si(z, l % mpz_get_si(w));
+      {
+        mpir_si d = mpz_get_si(w);
+        /* l % -1 is 0, but traps on x86 when l is the most negative value */
+        mpz_set_si(z, d == -1 ? 0 : l % d);
+      }
     else
       {
         /* if w is bigger than a long then the remainder is l unchanged,
